@@ -33,6 +33,30 @@ func c14Check(c c14Case) fw.Outcome {
 		}
 	}
 	const eps = 1e-9 // degrees of slack for the radians->degrees conversion
+	if c.Kind == "pole-directed/ulps" {
+		// the rim within a few units in the last place of the pole: the neighbouring latitudes too (a rounding
+		// coincidence such as sin(r) > cos(lat) one ulp short of the pole is rare at any single latitude)
+		for k := -8; k <= 8; k++ {
+			l := lat
+			for j := k; j != 0; {
+				if j > 0 {
+					l, j = math.Nextafter(l, math.Inf(1)), j-1
+				} else {
+					l, j = math.Nextafter(l, math.Inf(-1)), j+1
+				}
+			}
+			if l < -90 || l > 90 {
+				continue
+			}
+			a, b, cc, d := geo.RectFromCenter(l, lon, r)
+			if math.IsNaN(a) || math.IsNaN(b) || math.IsNaN(cc) || math.IsNaN(d) {
+				return fw.Failf(label, "RectFromCenter(%v,%v,%v) = (%v,%v,%v,%v) contains NaN", l, lon, r, a, b, cc, d)
+			}
+			if a < -90-eps || cc > 90+eps || b < -180-eps || d > 180+eps || a > cc || b > d {
+				return fw.Failf(label, "RectFromCenter(%v,%v,%v) = (%v,%v,%v,%v) is not within the world bounds", l, lon, r, a, b, cc, d)
+			}
+		}
+	}
 	if minLat < -90-eps || maxLat > 90+eps || minLon < -180-eps || maxLon > 180+eps || minLat > maxLat || minLon > maxLon {
 		return fw.Failf(label, "RectFromCenter(%v,%v,%v) = (%v,%v,%v,%v) is not within the world bounds", lat, lon, r, minLat, minLon, maxLat, maxLon)
 	}
@@ -163,6 +187,23 @@ func c14Gen(t *rapid.T) c14Case {
 			lat = math.Max(-90, math.Min(90, lat))
 		}
 		c.Kind = "pole-directed"
+		if ang < 180 && rapid.IntRange(0, 2).Draw(t, "poleulps") == 0 {
+			// the rim passes within a few units in the last place of the pole, as the library's own arithmetic sees it
+			// (latitude in radians plus the angular radius against pi/2)
+			if rapid.IntRange(0, 3).Draw(t, "poleulpr") > 0 {
+				r = rapid.Float64Range(1e4, 9.9e6).Draw(t, "poleulprv") // centres at all latitudes, not mostly next to the pole
+			}
+			lat = (math.Pi/2 - r/sphere.R) * 180 / math.Pi
+			dir := math.Inf(1 - 2*rapid.IntRange(0, 1).Draw(t, "poleulpdir"))
+			for i := rapid.IntRange(0, 4).Draw(t, "poleulpn"); i > 0; i-- {
+				lat = math.Nextafter(lat, dir)
+			}
+			if rapid.Bool().Draw(t, "south2") {
+				lat = -lat
+			}
+			lat = math.Max(-90, math.Min(90, lat))
+			c.Kind = "pole-directed/ulps"
+		}
 	case 3: // the disc just reaches / just misses the antimeridian
 		ang := r / sphere.R
 		if s := math.Sin(ang) / math.Cos(lat*math.Pi/180); ang < math.Pi/2 && s < 1 && s > 0 {
